@@ -55,6 +55,12 @@ def build_harness(profile="dev"):
     return exe
 
 
+class HarnessCrash(ToolError):
+    def __init__(self, msg, cmd):
+        super().__init__(msg)
+        self.cmd = cmd
+
+
 def run_harness(family, out, seed, tier, extra=(), profile="dev", timeout=1800, replay=None):
     exe = build_harness(profile)
     os.makedirs(os.path.dirname(out), exist_ok=True)
@@ -63,6 +69,11 @@ def run_harness(family, out, seed, tier, extra=(), profile="dev", timeout=1800, 
         cmd += ["--replay", replay]
     t0 = time.time()
     rc, o = sh(cmd, timeout=timeout, cwd=ROOT)
+    if rc < 0:
+        # killed by a signal (abort on heap corruption, segmentation fault) while driving the crate:
+        # not a result, not an error, not a clean panic
+        log(o[-3000:])
+        raise HarnessCrash(f"harness family {family} {' '.join(extra)} died with signal {-rc}", cmd)
     if rc != 0:
         log(o[-3000:])
         raise ToolError(f"harness family {family} exited with {rc}")
